@@ -370,7 +370,7 @@ def prTail (d : Gen.D) (wh : Option Expr) (ob : Option (List OrderItem)) (lm : O
 def prStmt (d : Gen.D) : Stmt → P
   | .select q => prQ d q
   | .insertValues h vs => do
-      let rows ← mapM' (fun r => (prList d r).map fun p => s!"({joinS ", " p})") vs
+      let rows ← mapM' (fun r => (prList8 d r).map fun p => s!"({joinS ", " p})") vs
       let hd ← prInsertHead d h
       pure s!"{hd}VALUES {joinS ", " rows}"
   | .insertSelect h q => do let hd ← prInsertHead d h; let s ← prQ d q; pure s!"{hd} {s}"
